@@ -320,16 +320,21 @@ fn parse_compressed<'a>(input: &'a [u8], cache: &AtomCache) -> NomResult<'a, Own
         return Err(nom::Err::Failure(NomError::new(input, ErrorKind::TooLarge)));
     }
 
-    let mut decoder = ZlibDecoder::new(rest);
-    let mut decompressed = Vec::with_capacity(uncompressed_size as usize);
+    // Inflate at most the declared size (plus one byte so that an overrun is detected):
+    // a small input must not be able to inflate into an arbitrarily large buffer.
+    let mut decoder = ZlibDecoder::new(rest).take(uncompressed_size as u64 + 1);
+    let mut decompressed = Vec::new();
     decoder
         .read_to_end(&mut decompressed)
         .map_err(|_| nom::Err::Failure(NomError::new(input, ErrorKind::Fail)))?;
-    let consumed = decoder.total_in() as usize;
+    if decompressed.len() != uncompressed_size as usize {
+        return Err(nom::Err::Failure(NomError::new(input, ErrorKind::Verify)));
+    }
+    let consumed = decoder.get_ref().total_in() as usize;
 
     let owned_term = match parse_term(&decompressed, cache) {
-        Ok((_remaining, term)) => term,
-        Err(_) => return Err(nom::Err::Failure(NomError::new(input, ErrorKind::Fail))),
+        Ok((remaining, term)) if remaining.is_empty() => term,
+        _ => return Err(nom::Err::Failure(NomError::new(input, ErrorKind::Fail))),
     };
 
     Ok((&rest[consumed..], owned_term))
